@@ -74,11 +74,29 @@ var gridP = []int{-1, 0, 1, 2, 3, 8, 100}
 
 type combo struct {
 	api, n, par, lat, fail, ctx int
+	// special: spNone = a point of the grid; spLarge = very many trivial calls (f returns at once;
+	// "first" there means one failing index drawn early in the range); spProcs = run after
+	// GOMAXPROCS was changed inside the process (value in procs), with overlapping calls.
+	special int
+	procs   int
 }
 
+const (
+	spNone = iota
+	spLarge
+	spProcs
+)
+
 func (cb combo) String() string {
-	return fmt.Sprintf("%s n=%d parallelism=%d latency=%s failing=%s ctx=%s",
+	s := fmt.Sprintf("%s n=%d parallelism=%d latency=%s failing=%s ctx=%s",
 		apiNames[cb.api], cb.n, cb.par, latNames[cb.lat], failNames[cb.fail], ctxNames[cb.ctx])
+	switch cb.special {
+	case spLarge:
+		s += " (trivial f; the failing index is an early one)"
+	case spProcs:
+		s += fmt.Sprintf(" (after runtime.GOMAXPROCS(%d) in this process)", cb.procs)
+	}
+	return s
 }
 
 func (cb combo) hasCtx() bool { return cb.api == apiDoContext || cb.api == apiMapContext }
@@ -91,13 +109,13 @@ func buildGrid(rnd *vkit.Rand) []combo {
 		for _, p := range gridP {
 			for lat := 0; lat < 3; lat++ {
 				for rep := 0; rep < 3; rep++ {
-					g = append(g, combo{apiDo, n, p, lat, failNone, ctxLive})
-					g = append(g, combo{apiMap, n, p, lat, failNone, ctxLive})
+					g = append(g, combo{api: apiDo, n: n, par: p, lat: lat})
+					g = append(g, combo{api: apiMap, n: n, par: p, lat: lat})
 				}
 				for fail := 0; fail < 6; fail++ {
 					for cx := 0; cx < 3; cx++ {
-						g = append(g, combo{apiDoContext, n, p, lat, fail, cx})
-						g = append(g, combo{apiMapContext, n, p, lat, fail, cx})
+						g = append(g, combo{api: apiDoContext, n: n, par: p, lat: lat, fail: fail, ctx: cx})
+						g = append(g, combo{api: apiMapContext, n: n, par: p, lat: lat, fail: fail, ctx: cx})
 					}
 				}
 			}
@@ -150,10 +168,11 @@ type run struct {
 	// pre-drawn tables (read-only once the call has begun)
 	latTab    []time.Duration
 	failTab   []bool
-	errs      []error
-	wait      []bool // once failure/cancellation is certain, block on ctx.Done() with no timeout
-	honour    []bool // return ctx.Err() if the context is done when the work is finished
+	errs      map[int]error // distinct error value per failing index
+	wait      []bool        // once failure/cancellation is certain, block on ctx.Done() with no timeout
+	honour    []bool        // return ctx.Err() if the context is done when the work is finished
 	linger    time.Duration
+	trivial   bool  // f returns at once and ignores its context: no latency / waiting / honouring tables
 	cancelAt  int64 // the invocation (by order of entry) that cancels the caller's context; 0 = none
 	in        []elem
 	straggler int
@@ -167,7 +186,7 @@ type run struct {
 	// monitor state: atomics only ...
 	counts       []atomic.Int32
 	retOwn       []atomic.Bool
-	gauge        vkit.Gauge
+	gauge        *vkit.Gauge
 	started      atomic.Int64
 	failedCalls  atomic.Int64 // calls that returned a non-nil error
 	retCtx       atomic.Int64 // calls that returned their context's error
@@ -179,6 +198,7 @@ type run struct {
 	released     atomic.Int64 // ... and saw it closed
 	badSeen      atomic.Bool  // f was handed an index outside [0, n)
 	badIndex     atomic.Int64 // the first such index
+	hiIdx        atomic.Int64 // 1 + the highest index invoked (kept in trivial mode only)
 	late         *lateState
 	curAtReturn  int64
 	startedAtRet int64
@@ -212,6 +232,14 @@ func (r *run) body(ctx context.Context, i int) error {
 	}
 	r.counts[i].Add(1)
 	k := r.started.Add(1)
+	if r.trivial {
+		for {
+			h := r.hiIdx.Load()
+			if int64(i) < h || r.hiIdx.CompareAndSwap(h, int64(i)+1) {
+				break
+			}
+		}
+	}
 	setter := false
 	if ctx != nil {
 		// Order matters: first the context handed to f, then the caller's. Cancellation is
@@ -234,11 +262,14 @@ func (r *run) body(ctx context.Context, i int) error {
 			setter = r.doomed.CompareAndSwap(false, true)
 		}
 	}
-	d := r.latTab[i]
+	var d time.Duration
+	if !r.trivial {
+		d = r.latTab[i]
+	}
 	if setter && d < r.linger {
 		d = r.linger // give the other workers time to enter f and park on ctx.Done()
 	}
-	canWait := ctx != nil && r.wait[i] && !setter
+	canWait := ctx != nil && !r.trivial && r.wait[i] && !setter
 	if canWait && r.doomed.Load() {
 		r.waited.Add(1)
 		<-ctx.Done()
@@ -253,7 +284,7 @@ func (r *run) body(ctx context.Context, i int) error {
 	}
 	var err error
 	if ctx != nil {
-		if r.honour[i] && ctx.Err() != nil {
+		if !r.trivial && r.honour[i] && ctx.Err() != nil {
 			err = ctx.Err()
 			r.retCtx.Add(1)
 		} else if r.failTab[i] {
@@ -282,36 +313,38 @@ func minInt(a, b int) int {
 
 func newRun(c *vkit.Case, cb combo) *run {
 	rnd := c.Rand
-	r := &run{combo: cb, late: &lateState{}}
+	r := &run{combo: cb, late: &lateState{}, gauge: &vkit.Gauge{}}
 	r.P = cb.par
 	if r.P <= 0 {
 		r.P = runtime.GOMAXPROCS(0)
 	}
 	r.Peff = minInt(r.P, cb.n)
 	n := cb.n
-	r.latTab = make([]time.Duration, n)
+	r.trivial = cb.special == spLarge
+	if !r.trivial {
+		r.latTab = make([]time.Duration, n)
+		r.wait = make([]bool, n)
+		r.honour = make([]bool, n)
+	}
 	r.failTab = make([]bool, n)
-	r.errs = make([]error, n)
-	r.wait = make([]bool, n)
-	r.honour = make([]bool, n)
+	r.errs = make(map[int]error)
 	r.counts = make([]atomic.Int32, n)
 	r.retOwn = make([]atomic.Bool, n)
 	r.plain = make([]int, n)
-	if n > 0 || rnd.Bool(0.5) {
+	if (n > 0 || rnd.Bool(0.5)) && (cb.special != spLarge || cb.api == apiMap || cb.api == apiMapContext) {
 		r.in = make([]elem, n)
 	}
 	for i := range r.in {
 		r.in[i] = elem{idx: i, key: rnd.Uint64()}
 	}
 	runName := c.ID()
-	for i := 0; i < n; i++ {
-		r.errs[i] = &callErr{run: runName, idx: i}
-	}
 
 	// Latencies. budget = what the whole call would take if run sequentially.
 	budget := 4 * time.Millisecond
 	r.straggler = -1
-	if n > 0 {
+	if r.trivial {
+		r.latLevel = "zero"
+	} else if n > 0 {
 		u := budget / time.Duration(n)
 		if u < 2*time.Microsecond {
 			u = 2 * time.Microsecond
@@ -320,6 +353,12 @@ func newRun(c *vkit.Case, cb combo) *run {
 			u = 250 * time.Microsecond
 		}
 		level := rnd.Intn(3)
+		switch cb.special {
+		case spLarge:
+			level = 0
+		case spProcs:
+			level = 2 // calls must overlap
+		}
 		r.latLevel = [...]string{"zero", "yield", "full"}[level]
 		base := [...]time.Duration{0, time.Nanosecond, u}[level]
 		switch cb.lat {
@@ -355,7 +394,12 @@ func newRun(c *vkit.Case, cb combo) *run {
 	if cb.hasCtx() && n > 0 {
 		switch cb.fail {
 		case failFirst:
-			r.failTab[0] = true
+			if cb.special == spLarge {
+				// early, but late enough that every goroutine is at work when it fails
+				r.failTab[200+rnd.Intn(2000)] = true
+			} else {
+				r.failTab[0] = true
+			}
 		case failLast:
 			r.failTab[n-1] = true
 		case failMiddle:
@@ -372,13 +416,24 @@ func newRun(c *vkit.Case, cb combo) *run {
 		}
 	}
 
+	for i, b := range r.failTab {
+		if b {
+			r.errs[i] = &callErr{run: runName, idx: i} // distinct values
+		}
+	}
+
 	// Behaviour once failure / cancellation is under way.
 	r.waitMode = "most"
 	if rnd.Bool(0.25) {
 		r.waitMode = "none"
 	}
 	r.honMode = [...]string{"honour-all", "ignore-all", "ignore-all", "mixed"}[rnd.Intn(4)]
-	for i := 0; i < n; i++ {
+	if cb.special == spLarge {
+		// f returns at once and ignores its context, so that goroutines keep calling after a failure
+		// for as long as the library lets them.
+		r.waitMode, r.honMode = "none", "ignore-all"
+	}
+	for i := 0; i < n && !r.trivial; i++ {
 		r.wait[i] = r.waitMode == "most" && rnd.Bool(0.8)
 		switch r.honMode {
 		case "honour-all":
@@ -443,10 +498,13 @@ func (r *run) witness(extra map[string]any) map[string]any {
 	return w
 }
 
+// retained is what the final sweep needs of a run (not the run itself: its tables may be large).
 type retained struct {
 	c        *vkit.Case
-	r        *run
 	desc     string
+	late     *lateState
+	gauge    *vkit.Gauge
+	wit      map[string]any
 	violated bool
 }
 
@@ -456,7 +514,8 @@ func parallelGoroutine(g vkit.G) bool { return g.Has("bradenaw/juniper/parallel.
 func execute(c *vkit.Case, cb combo) *retained {
 	rep := c.R
 	r := newRun(c, cb)
-	keep := &retained{c: c, r: r, desc: cb.String()}
+	keep := &retained{c: c, desc: cb.String(), late: r.late, gauge: r.gauge}
+	defer func() { keep.wit = r.witness(nil) }()
 	violate := func(sig, what string, extra map[string]any) {
 		if keep.violated {
 			return
@@ -589,6 +648,12 @@ func execute(c *vkit.Case, cb combo) *retained {
 		return keep
 	}
 
+	// In trivial mode no index at or above hiIdx was ever invoked: the per-index loops that only look
+	// at invoked indexes can stop there.
+	touched := n
+	if r.trivial {
+		touched = minInt(n, int(r.hiIdx.Load()))
+	}
 	callerDone := r.callerCtx.Err() != nil
 	failed := r.failedCalls.Load()
 
@@ -604,7 +669,7 @@ func execute(c *vkit.Case, cb combo) *retained {
 		rep.Count("clauses judged", "exactly once", 1)
 	} else {
 		dups := 0
-		for i := 0; i < n; i++ {
+		for i := 0; i < touched; i++ {
 			if r.counts[i].Load() > 1 {
 				dups++
 			}
@@ -615,8 +680,8 @@ func execute(c *vkit.Case, cb combo) *retained {
 	}
 
 	// Effects of every started invocation are visible (value form; the race detector sees the rest).
-	rep.Eval(n)
-	for i := 0; i < n; i++ {
+	rep.Eval(touched)
+	for i := 0; i < touched; i++ {
 		if r.counts[i].Load() >= 1 && snap[i] != token(i) {
 			violate("effects-not-visible", fmt.Sprintf("invocation %d had begun but its write was not visible to the caller right after the return", i), map[string]any{"index": i})
 			return keep
@@ -656,7 +721,10 @@ func execute(c *vkit.Case, cb combo) *retained {
 		case err != nil:
 			ok := false
 			src := ""
-			for i := 0; i < n && !ok; i++ {
+			for i := range r.errs {
+				if ok {
+					break
+				}
 				if r.retOwn[i].Load() && errors.Is(err, r.errs[i]) {
 					ok, src = true, "error of a call"
 				}
@@ -733,7 +801,7 @@ func main() {
 		r.Assume("f does not panic and does not return an error unless the scenario plans it")
 		r.Assume("the judged bound is the parallelism the caller asked for (GOMAXPROCS when <= 0), not the library's tighter min(parallelism, n)")
 		r.Assume("with failures or a cancelled caller ctx, which indexes were (not) invoked is recorded, not judged; MapContext's results alongside an error are not judged")
-		r.Assume("GOMAXPROCS does not change while the monitor runs")
+		r.Assume("GOMAXPROCS changes only where the monitor changes it itself (group \"procs\", which runs alone); 'GOMAXPROCS when <= 0' is judged against the value in force when the call is made")
 
 		grid := buildGrid(r.Rand("grid"))
 		nruns := r.Scale(2000, 4*len(grid))
@@ -746,6 +814,76 @@ func main() {
 			kept = append(kept, execute(c, grid[c.Index%len(grid)]))
 		})
 
+		// Very many trivial calls: whatever the library does per index (or per batch of indexes) is
+		// exercised thousands of times per goroutine; a failing index early in the range, f ignoring
+		// its context, so every call the library still starts after the failure is counted.
+		var large []combo
+		for rep := 0; rep < r.Scale(2, 12); rep++ {
+			for _, n := range []int{20000, 40000, 70000} {
+				for _, p := range []int{2, 3, 4} {
+					large = append(large, combo{api: apiDoContext, n: n, par: p, lat: latUniform, fail: failFirst, special: spLarge})
+					large = append(large, combo{api: apiMapContext, n: n, par: p, lat: latUniform, fail: failFirst, special: spLarge})
+				}
+			}
+		}
+		for i, n := range []int{20000, 40000, 70000} { // and complete runs: exactly once over the whole range
+			if n == 70000 && !r.Thorough() {
+				continue
+			}
+			for rep := 0; rep < r.Scale(1, 4); rep++ {
+				large = append(large, combo{api: []int{apiDo, apiDoContext, apiMap, apiMapContext}[(i+rep)%4], n: n, par: 2 + (i+rep)%3, lat: latUniform, special: spLarge})
+			}
+		}
+		r.Cases("large", len(large), 1, func(c *vkit.Case) {
+			if r.NViolations() >= 5 {
+				return
+			}
+			kept = append(kept, execute(c, large[c.Index]))
+			r.Count("runs", "very many trivial calls", 1)
+		})
+
+		// GOMAXPROCS changed inside the process. "GOMAXPROCS when <= 0" means the value in force when
+		// the call is made. GOMAXPROCS is process-global: this group runs alone, one case at a time,
+		// after everything above has finished, and every case restores the inherited value.
+		inherited := runtime.GOMAXPROCS(0)
+		procsVals := []int{2, 3, 5}
+		if h := inherited / 2; h >= 1 && h != 2 && h != 3 && h != 5 {
+			procsVals = append(procsVals, h)
+		}
+		var procs []combo
+		for rep := 0; rep < r.Scale(1, 8); rep++ {
+			for gi, g := range procsVals {
+				for api := range apiNames {
+					procs = append(procs, combo{api: api, n: []int{64, 200}[(rep+api)%2], par: []int{0, -1}[(rep+api+gi)%2], lat: []int{latUniform, latDecreasing}[(api+g+rep)%2], special: spProcs, procs: g})
+				}
+			}
+		}
+		r.Cases("procs", len(procs), 1, func(c *vkit.Case) {
+			if r.NViolations() >= 5 {
+				return
+			}
+			cb := procs[c.Index]
+			// Use the default parallelism once under the inherited setting (so a library that
+			// remembers it has something to remember), then change the setting.
+			parallel.Do(0, 2, func(int) {})
+			_ = parallel.DoContext(context.Background(), -1, 2, func(context.Context, int) error { return nil })
+			old := runtime.GOMAXPROCS(cb.procs)
+			defer runtime.GOMAXPROCS(old)
+			kept = append(kept, execute(c, cb))
+			r.Count("runs", "after GOMAXPROCS was changed in-process", 1)
+			switch {
+			case cb.procs < old:
+				r.Count("runs after GOMAXPROCS was changed in-process", "lowered", 1)
+			case cb.procs > old:
+				r.Count("runs after GOMAXPROCS was changed in-process", "raised", 1)
+			default:
+				r.Count("runs after GOMAXPROCS was changed in-process", "same value", 1)
+			}
+		})
+		if got := runtime.GOMAXPROCS(0); got != inherited {
+			runtime.GOMAXPROCS(inherited)
+		}
+
 		// Final sweep: once no goroutine of the parallel package is left (dump-based, so the counters
 		// below are final), no run may have seen an invocation start or finish after its return.
 		left := vkit.WaitNoGoroutine(parallelGoroutine, time.Second, 100*time.Millisecond)
@@ -757,11 +895,12 @@ func main() {
 			if k.violated {
 				continue
 			}
-			ls, le := k.r.late.lateStart.Load(), k.r.late.lateExit.Load()
-			if ls != 0 || le != 0 || k.r.gauge.Cur() != 0 {
+			ls, le := k.late.lateStart.Load(), k.late.lateExit.Load()
+			if ls != 0 || le != 0 || k.gauge.Cur() != 0 {
 				k.violated = true
+				k.wit["final_sweep"] = map[string]any{"started_after_return": ls, "finished_after_return": le, "gauge_now": k.gauge.Cur()}
 				k.c.Violation("start-after-return", fmt.Sprintf("%s: after the call had returned, %d invocations of f began and %d finished (gauge now %d)",
-					k.desc, ls, le, k.r.gauge.Cur()), k.r.witness(nil))
+					k.desc, ls, le, k.gauge.Cur()), k.wit)
 			}
 		}
 		r.Count("final sweep", "runs re-checked", len(kept))
@@ -790,6 +929,8 @@ func main() {
 			r.Floor("runs in which a call failed and others, parked on ctx.Done(), were released", r.Table("runs", "a call failed and others, parked on ctx.Done(), were released"), 20*q)
 			r.Floor("runs in which the caller cancelled while calls were in flight", r.Table("runs", "caller cancelled while calls were in flight"), 20*q)
 			r.Floor("runs that stopped early after a failure", r.Table("runs", "stopped early after a failure"), 20*q)
+			r.Floor("runs with very many trivial calls", r.Table("runs", "very many trivial calls"), int64(len(large)))
+			r.Floor("runs after GOMAXPROCS was changed in-process", r.Table("runs", "after GOMAXPROCS was changed in-process"), int64(len(procs)))
 		}
 	})
 }
